@@ -194,6 +194,11 @@ class Engine:
     def index(self):
         self.byname = {}; self.impls = {}
         srccache = {}
+        # type aliases of the crate (e.g. DynIden = SeaRc<dyn Iden>): impls written for the alias are indexed under the target too
+        self.aliases = {}
+        for path in glob.glob(os.path.join(self.srcroot, 'src') + '/**/*.rs', recursive=True):
+            for m in re.finditer(r'^\s*pub(?:\([^)]*\))?\s+type\s+(\w+)(?:<[^=]*>)?\s*=\s*([^;]+);', open(path).read(), re.M):
+                self.aliases[m.group(1)] = base(m.group(2))
         for key, f in self.fns.items():
             name = f.name
             m = re.search(r'<impl at ([^:>]+):(\d+):(\d+): (\d+):(\d+)>::(.*)$', name)
@@ -245,6 +250,7 @@ class Engine:
             trait = mm.group(1); ty = mm.group(2)
             tb = base(trait) if trait else None
             tyb = base(ty)
+            tyb = self.aliases.get(tyb, tyb)
             if trait and self._is_forwarder(f, meth, tyb):
                 self.impls[(tyb, None, meth)] = f      # #[inherent] forwarder
                 continue
